@@ -135,7 +135,9 @@ func (m *VerifRecManager) remove(file string) {
 }
 
 // CreateMainConfig records the main configuration.
-func (m *VerifRecManager) CreateMainConfig(content []byte) bool { return m.write("main", string(content)) }
+func (m *VerifRecManager) CreateMainConfig(content []byte) bool {
+	return m.write("main", string(content))
+}
 
 // CreateConfig records a conf.d file.
 func (m *VerifRecManager) CreateConfig(name string, content []byte) bool {
@@ -190,7 +192,9 @@ func (m *VerifRecManager) ClearAppProtectFolder(name string) {
 }
 
 // GetFilenameForSecret returns the path the real manager would use.
-func (m *VerifRecManager) GetFilenameForSecret(name string) string { return "/etc/nginx/secrets/" + name }
+func (m *VerifRecManager) GetFilenameForSecret(name string) string {
+	return "/etc/nginx/secrets/" + name
+}
 
 // CreateDHParam records the dhparam file.
 func (m *VerifRecManager) CreateDHParam(content string) (string, error) {
